@@ -137,4 +137,75 @@ theorem levels_sorted {S : Spec} : ∀ (fuel : Nat) (l : List String) (lv : List
           have : d ∈ rest.flatten := ihm d hdn
           simp [mem_dedup, this]
 
+/-! ### small facts about tables and loops -/
+
+theorem dtLookup_mem {t : List (String × Dt)} {n : String} {d : Dt} (h : dtLookup t n = some d) :
+    (n, d) ∈ t := by
+  unfold dtLookup at h
+  cases hf : t.find? (fun p => p.1 == n) with
+  | none => simp [hf] at h
+  | some p =>
+    simp only [hf, Option.map_some, Option.some.injEq] at h
+    have h1 := List.mem_of_find?_eq_some hf
+    have h2 := List.find?_some hf
+    have : p.1 = n := by simpa using h2
+    subst h; subst this; exact h1
+
+theorem dtLookup_none {t : List (String × Dt)} {n : String} (h : ¬ n ∈ names t) : dtLookup t n = none := by
+  unfold dtLookup
+  cases hf : t.find? (fun p => p.1 == n) with
+  | none => rfl
+  | some p =>
+    exfalso
+    have h1 := List.mem_of_find?_eq_some hf
+    have h2 : p.1 = n := by simpa using List.find?_some hf
+    exact h (by subst h2; exact List.mem_map_of_mem h1)
+
+theorem dtLookup_names {t : List (String × Dt)} {n : String} {d : Dt} (h : dtLookup t n = some d) : n ∈ names t := by
+  have := dtLookup_mem h
+  exact List.mem_map.mpr ⟨(n, d), this, rfl⟩
+
+theorem findLoader_mem {S : Spec} {n : String} {ld : Loader} (h : findLoader S n = some ld) :
+    ld ∈ S.loaders ∧ ld.name = n := by
+  unfold findLoader at h
+  exact ⟨List.mem_of_find?_eq_some h, by simpa using List.find?_some h⟩
+
+theorem insertCol_mem {cols : List (String × Dt)} {n : String} {d : Dt} {p : String × Dt}
+    (h : p ∈ insertCol cols n d) : p ∈ cols ∨ p = (n, d) := by
+  unfold insertCol at h
+  split at h
+  · obtain ⟨q, hq, hqp⟩ := List.mem_map.mp h
+    split at hqp
+    · exact Or.inr hqp.symm
+    · exact Or.inl (hqp ▸ hq)
+  · rcases List.mem_append.mp h with h | h
+    · exact Or.inl h
+    · exact Or.inr (by simpa using h)
+
+theorem foldlM_inv {α β : Type} (f : β → α → Except Fault β) (P : β → Prop)
+    (hstep : ∀ b a b', P b → f b a = .ok b' → P b') :
+    ∀ (l : List α) (b b' : β), P b → l.foldlM f b = .ok b' → P b'
+  | [], b, b', hb, h => by simp [List.foldlM, pure, Except.pure] at h; exact h ▸ hb
+  | a :: l, b, b', hb, h => by
+    simp only [List.foldlM, bind, Except.bind] at h
+    cases hf : f b a with
+    | error e => simp [hf] at h
+    | ok b1 =>
+      simp only [hf] at h
+      exact foldlM_inv f P hstep l b1 b' (hstep b a b1 hb hf) h
+
+theorem dtLookup_some_of_mem {t : List (String × Dt)} {n : String} (h : n ∈ names t) : ∃ d, dtLookup t n = some d := by
+  cases hd : dtLookup t n with
+  | some d => exact ⟨d, rfl⟩
+  | none =>
+    exfalso
+    unfold dtLookup at hd
+    cases hf : t.find? (fun p => p.1 == n) with
+    | some p => simp [hf] at hd
+    | none =>
+      obtain ⟨p, hp, he⟩ := List.mem_map.mp h
+      have := List.find?_eq_none.mp hf p hp
+      simp [he] at this
+
+
 end AbacusVerif.Fields
